@@ -30,8 +30,10 @@ RULE = ('Hypothesis draws a start stream (Stream in l/g/s/L or MultiStream over 
         'operations enabled in the current model state: reads of 19 derived properties on the stream, its proxies, '
         'its partner or a phase view (single, bursts, and the H reads inside mix_from of a temporary stream); item/'
         'slice/name writes on mol, mass, imol, imass; scale, F_mol, F_mass, F_vol; T; P; phase; phases (S->M, M->M, '
-        'M->S); H setter; empty(+refill); mix_from; copy_like; copy_flow; link_with (all flag subsets, both '
-        'directions); unlink; _reset_thermo; copy(thermo=); proxy(); new partner; exact restore of an earlier state. '
+        'M->S); exchange of two phase rows; H setter; empty(+refill); mix_from; copy_like; copy_flow; link_with (all '
+        'flag subsets, both directions); unlink; _reset_thermo; copy(thermo=); proxy(); new partner; exact restore of '
+        'an earlier state; read-mutate-read-undo-read patterns (T, P, phase, scale by 2 and 0.5, row exchange, package '
+        'P<->Pm). '
         'Oracle: property == same property of a fresh stream built from the reference model (rtol 1e-9) or same '
         'exception type.  Non-trivial: the case re-reads a property through the same access path after the state '
         'changed.  Distinct by (start kind, sequence of operation names with access-path kinds and property names).')
@@ -45,6 +47,11 @@ ASSUMPTIONS = [
     'energy-balance mixing of single-phase receivers only with donors that share one phase; H targets inside [H(275 K), H(415 K)]',
     'T in [270, 420] K, P in [1e4, 3e6] Pa, flows finite and non-negative',
     'writes through a view that the model knows to be detached (known finding C14-F2) are never generated',
+    'regions of known findings (F1 cross-reads in a proxy group, F2 detached views, F5 mass writes through a _data_cache '
+    'dict held by two streams) are entered only in cases whose drawn `explore` set names them; elsewhere they are avoided '
+    'and counted in avoided:* cells',
+    'cross-package transfers use only one of index_overlap / imol[CAS tuple] per receiver package and case (index-cache '
+    'conflict owned by C10)',
 ]
 REQUIRED_CELLS = {'quick': ['read:path=h', 'read:path=p', 'read:path=v', 'reread', 'op:w_flow', 'op:w_scale', 'op:w_T',
                             'op:w_P', 'op:w_phase', 'op:phases', 'op:w_H', 'op:mix_from', 'op:copy_like', 'op:copy_flow',
@@ -301,7 +308,7 @@ def region_of(W, path):
     h = W.h['a'] if k in ('p', 'pv') else W.h[path[1]]
     m = member(W, path)
     xread = int(m is not None and m not in W.consistent)
-    det = int(k == 'v' and path[2] in h.detached)
+    det = int(k in ('v', 'pv') and path[2] in h.detached)     # a proxy shares _streams with its original
     kind = 'S' if k in ('v', 'pv') else h.kind
     return f'path={k},kind={kind},parent={h.kind},xread={xread},det={det},dc={int(W.dc_tainted)}'
 
@@ -317,7 +324,16 @@ def get_obj(W, ctx, path):
         if h.kind == 'M': h.fetched.add(path[2])
         return o
     p = W.proxies[path[1]]
-    return ctx.call('view', lambda: p[path[2]], region=region)
+    o = ctx.call('view', lambda: p[path[2]], region=region)
+    W.h['a'].fetched.add(path[2])
+    return o
+
+
+NAMES3 = ('a', 'b', 'c')
+
+
+def handles(W):
+    return [n for n in NAMES3 if n in W.h]
 
 
 def read_paths(W):
@@ -330,16 +346,15 @@ def read_paths(W):
     if ok_member('a'): out.append(['h', 'a'])
     for i in range(len(W.proxies)):
         if ok_member(f'p{i}'): out.append(['p', i])
-    for n in ('a', 'b'):
-        h = W.h.get(n)
-        if h is None: continue
-        if n == 'b': out.append(['h', 'b'])
+    for n in handles(W):
+        h = W.h[n]
+        if n != 'a': out.append(['h', n])
         if h.kind == 'M':
             for p in h.phases:
                 if p not in h.detached or 'detached' in ex: out.append(['v', n, p])
-        elif n == 'b' or ok_member('a'):
+        elif n != 'a' or ok_member('a'):
             out.append(['v', n, h.ph.val])
-    if a.kind == 'M' and W.proxies and 'mproxy_view' in ex:
+    if a.kind == 'M' and W.proxies and 'mproxy_view' in ex and (a.phases[0] not in a.detached or 'detached' in ex):
         out.append(['pv', 0, a.phases[0]])
     return out
 
@@ -348,9 +363,8 @@ def write_paths(W, single=None):
     """Access paths for writing.  single=True: single-phase objects only; False: multi-phase objects only."""
     out = []
     a = W.h['a']
-    for n in ('a', 'b'):
-        h = W.h.get(n)
-        if h is None: continue
+    for n in handles(W):
+        h = W.h[n]
         if single is None or single == (h.kind == 'S'): out.append(['h', n])
         if h.kind == 'M' and single in (None, True):
             for p in h.phases:
@@ -401,15 +415,27 @@ def cache_reset(W, h):
         W.mut_since_read = False
 
 
-def containers_replaced(h):
-    if h.kind == 'M':
-        h.detached |= h.fetched
+def ghosts(h):
+    """Cached views of phases that no longer exist (left behind by a `phases` change)."""
+    return (h.fetched - set(h.phases)) if h.kind == 'M' else set()
 
 
-def shares(W):
-    a, b = W.h['a'], W.h.get('b')
-    if b is None: return False
-    return a.flow is b.flow or a.tc is b.tc or (a.ph is not None and a.ph is b.ph)
+def views_relinked(h):
+    """link_with / unlink / _reset_thermo re-link every cached view (they raise when a ghost is among them)."""
+    if h.kind == 'M': h.detached = set()
+
+
+def shares_pair(x, y):
+    return x.flow is y.flow or x.tc is y.tc or (x.ph is not None and x.ph is y.ph)
+
+
+def shares(W, h=None):
+    """Does handle h (default: any handle) share a container with another handle?"""
+    hs = [W.h[n] for n in handles(W)]
+    for i, x in enumerate(hs):
+        for y in hs[i + 1:]:
+            if shares_pair(x, y) and (h is None or h is x or h is y): return True
+    return False
 
 
 # ---------------------------------------------------------------------------
@@ -598,7 +624,7 @@ def op_mixH(ch, W, ctx):
         st = {'kind': 'S', 'pkg': s1['pkg'], 'phases': [ph], 'rows': {ph: rows}, 'T': t.T, 'P': min(s1['P'], s2['P'])}
         f = fresh(st)
         tol = 100. * abs(f.C) * T_TOL + 1e-9 * abs(want) + 1e-9
-        ctx.metric_max('mixH:resid/tol', abs(f.H - want) / tol)
+        if abs(f.H - want) <= tol: ctx.metric_max('mixH:resid/tol', abs(f.H - want) / tol)
         if abs(f.H - want) > tol:
             ctx.fail(f'read.mixH|{region}|stale', f'mix of {pkey(p1)} and {pkey(p2) if p2 else "new"}: mixed T={t.T!r} gives H '
                      f'{f.H!r}, donors\' fresh H sum {want!r}; trace tail {W.trace[-8:]}')
@@ -820,10 +846,10 @@ def op_empty(ch, W, ctx):
 
 def op_phases(ch, W, ctx):
     """Kind / phase-set change of a handle that shares nothing with its partner."""
-    if shares(W):
-        ctx.cell('avoided:kind-change-while-linked'); return
-    hn = ch.choice('phs.h', [n for n in ('a', 'b') if n in W.h])
+    hn = ch.choice('phs.h', handles(W))
     h = W.h[hn]
+    if shares(W, h):
+        ctx.cell('avoided:kind-change-while-linked'); return
     if h.kind == 'S':
         extra = ch.subset('phs.new', PHASES, min_size=1, max_size=2)
         new = sorted(set(extra) | {h.ph.val})
@@ -852,7 +878,7 @@ def op_phases(ch, W, ctx):
             ctx.call('op.phases', setattr, h.real, 'phases', tuple(new), region='from=M,to=M')
             rows = {p: dict(h.vec(p)) if p in h.phases else {} for p in new}
             h.phases = list(new); h.flow = Flow(rows); new_dc(h)
-            containers_replaced(h)
+            h.detached = set(h.fetched)      # the views cached in _streams keep the old containers (finding F2)
             cache_reset(W, h)
         else:
             ph = ch.choice('phs.phase', PHASES)
@@ -900,20 +926,25 @@ def draw_donors(ch, W, ctx, tag, recv, nmax, allow_self=True):
     """List of (real, state, label) donors for receiver handle recv."""
     out = []
     n = ch.int(f'{tag}.n', 0, nmax)
-    other = W.h.get('b' if recv.name == 'a' else 'a')
     for i in range(n):
         kinds = ['new', 'new']
         if allow_self: kinds.append('self')
-        if other is not None and not shares(W) and donor_ok(recv, state(W, ['h', other.name])): kinds.append('other')
+        kinds += other_donors(W, recv)
         k = ch.choice(f'{tag}.{i}.src', kinds)
         if k == 'new':
             real, st = draw_donor(ch, f'{tag}.{i}', recv)
         elif k == 'self':
             real, st = recv.real, state(W, ['h', recv.name])
         else:
-            real, st = other.real, state(W, ['h', other.name])
+            real, st = W.h[k].real, state(W, ['h', k])
         out.append((real, st, k))
     return out
+
+
+def other_donors(W, recv, need_phase=False):
+    """Names of the other handles that are admissible donors and share nothing with the receiver."""
+    return [n for n in handles(W) if n != recv.name and not shares_pair(recv, W.h[n])
+            and donor_ok(recv, state(W, ['h', n]), need_phase)]
 
 
 def row_for(recv, st, p):
@@ -922,7 +953,7 @@ def row_for(recv, st, p):
 
 
 def op_mix_from(ch, W, ctx):
-    hn = ch.choice('mix.h', [n for n in ('a', 'b') if n in W.h])
+    hn = ch.choice('mix.h', handles(W))
     recv = W.h[hn]
     donors = draw_donors(ch, W, ctx, 'mix', recv, 3)
     eb = ch.bool('mix.eb')
@@ -936,7 +967,7 @@ def op_mix_from(ch, W, ctx):
         ctx.cell('avoided:mix-eb-solid'); eb = False
     region = f'recv={recv.kind},n={min(len(live), 2)},eb={int(eb)},multi={int(any(st["kind"] == "M" for _, st, _ in live))},' \
              f'xpkg={int(any(st["pkg"] != recv.pkg for _, st, _ in live))},self={int(any(k == "self" for _, _, k in live))}'
-    a_donor = any((k == 'self' and hn == 'a') or (k == 'other' and hn == 'b') for _, _, k in live)
+    a_donor = any((k == 'self' and hn == 'a') or k == 'a' for _, _, k in live)
     if eb and len(live) >= 2 and a_donor and 'a' not in W.consistent:
         # the energy balance reads a.H through a's memo (trigger region of finding F1)
         ctx.cell('avoided:mix-eb-inconsistent-donor'); eb = False
@@ -979,11 +1010,11 @@ def op_mix_from(ch, W, ctx):
 
 
 def op_copy_like(ch, W, ctx):
-    hn = ch.choice('cl.h', [n for n in ('a', 'b') if n in W.h])
+    hn = ch.choice('cl.h', handles(W))
     recv = W.h[hn]
     (real, st, k), = draw_donors_fixed(ch, W, ctx, 'cl', recv, need_phase=True)
     if recv.kind == 'S' and st['kind'] == 'M':
-        if shares(W):
+        if shares(W, recv):
             ctx.cell('avoided:kind-change-while-linked'); return
     if not xpkg_allowed(W, ctx, recv, [st], 'overlap'): return
     region = f'recv={recv.kind},donor={st["kind"]},xpkg={int(st["pkg"] != recv.pkg)}'
@@ -1005,19 +1036,17 @@ def op_copy_like(ch, W, ctx):
 
 def draw_donors_fixed(ch, W, ctx, tag, recv, need_phase=False):
     """Exactly one donor (new or the other handle)."""
-    other = W.h.get('b' if recv.name == 'a' else 'a')
-    kinds = ['new', 'new']
-    if other is not None and not shares(W) and donor_ok(recv, state(W, ['h', other.name]), need_phase): kinds.append('other')
+    kinds = ['new', 'new'] + other_donors(W, recv, need_phase)
     k = ch.choice(f'{tag}.src', kinds)
     if k == 'new':
         real, st = draw_donor(ch, f'{tag}.d', recv, need_phase=need_phase)
     else:
-        real, st = other.real, state(W, ['h', other.name])
+        real, st = W.h[k].real, state(W, ['h', k])
     return [(real, st, k)]
 
 
 def op_copy_flow(ch, W, ctx):
-    hn = ch.choice('cf.h', [n for n in ('a', 'b') if n in W.h])
+    hn = ch.choice('cf.h', handles(W))
     recv = W.h[hn]
     (real, st, k), = draw_donors_fixed(ch, W, ctx, 'cf', recv)
     xp = st['pkg'] != recv.pkg
@@ -1059,59 +1088,70 @@ def compatible(a, b):
 
 
 def op_link(ch, W, ctx):
-    a, b = W.h['a'], W.h.get('b')
-    if not compatible(a, b):
-        if shares(W):
+    def pairs():
+        hs = handles(W)
+        return [[x, y] for x in hs for y in hs if x != y and compatible(W.h[x], W.h[y])]
+    if not pairs():
+        if shares(W, W.h['a']):
             ctx.cell('avoided:link-incompatible-but-sharing'); return
         op_partner(ch, W, ctx)
-        b = W.h['b']
     flags = ch.choice('ln.flags', [[1, 1, 1], [1, 1, 1], [1, 0, 1], [1, 1, 0], [0, 1, 1], [1, 0, 0], [0, 1, 0], [0, 0, 1]])
-    x, y = (a, b) if ch.bool('ln.a_links') else (b, a)
+    xn, yn = ch.choice('ln.pair', pairs())
+    x, y = W.h[xn], W.h[yn]
     flow, phase, TP = [bool(f) for f in flags]
+    gh = bool(ghosts(x)) and (flow or TP)
+    if gh and 'detached' not in W.explore:
+        ctx.cell('avoided:link-with-ghost-views'); return
     W.trace.append(f'link {x.name}.link_with({y.name}) flow={int(flow)} phase={int(phase)} TP={int(TP)}')
-    ctx.call('op.link_with', x.real.link_with, y.real, flow, phase, TP, region=f'kind={x.kind},flags={"".join(map(str, flags))}')
+    ctx.call('op.link_with', x.real.link_with, y.real, flow, phase, TP,
+             region=f'kind={x.kind},flags={"".join(map(str, flags))},det={int(gh)}')
     if TP: x.tc = y.tc
     if flow: x.flow = y.flow
     if phase and x.kind == 'S': x.ph = y.ph
     if TP and flow and (phase or x.kind == 'M') and x.dc is not y.dc:
-        # link_with shares the _data_cache dict; otherwise the dict is cleared in place, whoever else holds it
+        # link_with shares the _data_cache dict; otherwise the dict is cleared in place, whoever else holds it (F5)
         x.dc.owners = [o for o in x.dc.owners if o is not x]
         x.dc = y.dc; x.dc.owners.append(x)
-    if flow or TP: containers_replaced(x)
+    if flow or TP: views_relinked(x)
     if x.name == 'a': drop_proxies(W, ctx, 'link_with')
     mutated(W, W.trace[-1])
 
 
 def op_unlink(ch, W, ctx):
-    hn = ch.choice('ul.h', [n for n in ('a', 'b') if n in W.h])
+    hn = ch.choice('ul.h', handles(W))
     h = W.h[hn]
+    gh = bool(ghosts(h))
+    if gh and 'detached' not in W.explore:
+        ctx.cell('avoided:unlink-with-ghost-views'); return
     W.trace.append(f'unlink {hn}')
-    ctx.call('op.unlink', h.real.unlink, region=f'kind={h.kind}')
+    ctx.call('op.unlink', h.real.unlink, region=f'kind={h.kind},det={int(gh)}')
     h.flow = h.flow.copy(); h.tc = h.tc.copy()
     if h.ph is not None: h.ph = h.ph.copy()
-    # unlink clears the _data_cache dict in place: it stays shared with the former partner (finding F5)
-    containers_replaced(h)
+    new_dc(h)                    # unlink gives the stream its own indexer (own _data_cache)
+    views_relinked(h)
     if hn == 'a': drop_proxies(W, ctx, 'unlink')
     cache_reset(W, h)
     mutated(W, W.trace[-1])
 
 
 def op_reset_thermo(ch, W, ctx):
-    if shares(W):
-        ctx.cell('avoided:reset_thermo-while-linked'); return
-    hn = ch.choice('rt.h', [n for n in ('a', 'b') if n in W.h])
+    hn = ch.choice('rt.h', handles(W))
     h = W.h[hn]
-    if h.detached and 'detached' not in W.explore:
-        ctx.cell('avoided:reset_thermo-with-detached-views'); return
+    if shares(W, h):
+        ctx.cell('avoided:reset_thermo-while-linked'); return
+    gh = bool(ghosts(h))
+    if gh and 'detached' not in W.explore:
+        ctx.cell('avoided:reset_thermo-with-ghost-views'); return
     nz = h.nonzero_names()
     cands = [p for p in ('P', 'Pm', 'Q', 'R', 'Pm') if p != h.pkg and nz <= set(_NAMES[p])]
     if not cands:
         ctx.cell('avoided:reset_thermo-no-admissible-package'); return
     pkg = ch.choice('rt.pkg', cands)
     W.trace.append(f'reset_thermo {hn} {h.pkg}->{pkg}')
-    ctx.call('op._reset_thermo', h.real._reset_thermo, _PK[pkg], region=f'kind={h.kind},det={int(bool(h.detached))}')
+    ctx.call('op._reset_thermo', h.real._reset_thermo, _PK[pkg], region=f'kind={h.kind},det={int(gh)}')
     h.pkg = pkg
     new_dc(h)
+    views_relinked(h)
     for r in h.flow.rows.values():
         for n in [n for n, v in r.items() if not v]: del r[n]
     if hn == 'a': drop_proxies(W, ctx, 'reset_thermo')
@@ -1120,7 +1160,7 @@ def op_reset_thermo(ch, W, ctx):
 
 
 def op_copy_replace(ch, W, ctx):
-    if shares(W):
+    if shares(W, W.h['a']):
         ctx.cell('avoided:copy-while-linked'); return
     h = W.h['a']
     nz = h.nonzero_names()
@@ -1160,8 +1200,13 @@ def op_partner(ch, W, ctx):
     a = W.h['a']
     W.trace.append('partner')
     b = draw_handle(ch, 'b', 'b', kind=a.kind, pkg=a.pkg, phases=(list(a.phases) if a.kind == 'M' else None))
+    if 'b' in W.h:
+        # the previous partner stays alive as 'c'
+        old_c = W.h.get('c')
+        if old_c is not None: old_c.dc.owners = [o for o in old_c.dc.owners if o is not old_c]
+        W.h['c'] = W.h['b']; W.h['c'].name = 'c'
     W.h['b'] = b
-    W.lastread = {k: v for k, v in W.lastread.items() if not k[0].startswith(('hb', 'vb'))}
+    W.lastread = {k: v for k, v in W.lastread.items() if not k[0].startswith(('hb', 'vb', 'hc', 'vc'))}
 
 
 def op_restore(ch, W, ctx):
@@ -1243,12 +1288,12 @@ def op_revisit(ch, W, ctx):
     muts = ['T', 'P', 'scale2']
     if h.kind == 'S': muts.append('phase')
     else: muts += ['swap', 'swap']
-    if h.pkg in ('P', 'Pm') and not shares(W) and not h.detached: muts += ['thermo', 'thermo']
+    if h.pkg in ('P', 'Pm') and not shares(W, h) and not ghosts(h): muts += ['thermo', 'thermo']
     mut = ch.choice('rv.mut', muts)
     obj = h.real
     def reset_to(pkg):
         ctx.call('op._reset_thermo', obj._reset_thermo, _PK[pkg], region=f'kind={h.kind},det=0')
-        h.pkg = pkg; new_dc(h)
+        h.pkg = pkg; new_dc(h); views_relinked(h)
         if hn == 'a': drop_proxies(W, ctx, 'reset_thermo')
         cache_reset(W, h)
     if mut == 'swap':
